@@ -16,6 +16,7 @@ Oracle: refscope - a static environment calculus transcribed from the statement.
 from hypothesis import strategies as st
 
 import glom
+from glom import Iter
 from glom import (T, S, A, Val, Coalesce, Pipe, Spec, Vars, Ref, Match, Auto, Switch, And, Or, M, Regex, GlomError)
 
 from ..runner import Sub, Mismatch
@@ -53,7 +54,7 @@ NAMES = ['k', 'j']
 def gen_node(draw, d, is_list, counter):
     S_ = st.sampled_from
     leafs = ['bind', 'abind', 'read', 'read', 'readitem', 'gbind', 'gread', 'id', 'vbind', 'vset', 'vread', 'const']
-    comps = ['tuple', 'tuple', 'pipe', 'dict', 'coal', 'or', 'and', 'switch', 'specscope', 'varschain']
+    comps = ['tuple', 'tuple', 'pipe', 'dict', 'coal', 'or', 'and', 'switch', 'specscope', 'varschain', 'lazy']
     if is_list:
         comps.append('list')
     kind = draw(S_(leafs if d <= 0 else leafs + comps + comps))
@@ -80,6 +81,9 @@ def gen_node(draw, d, is_list, counter):
         return [kind, kids]
     if kind == 'list':
         return ['list', gen_node(draw, d - 1, False, counter)]
+    if kind == 'lazy':
+        # three chain steps: Val(items), Iter(sub), list -- the sub-spec runs while the LATER step `list` consumes it
+        return ['lazy', gen_node(draw, d - 1, False, counter), draw(S_(['iter', 'iter', 'map', 'all']))]
     if kind == 'switch':
         cases = []
         for _ in range(draw(st.integers(1, 3))):
@@ -152,10 +156,12 @@ def build(r, in_chain=False):
         return M == 'never-equal'
     if k == 'fail':
         return (build(r[1]), T['nope']['nope'])
+    if k == 'lazy':
+        return tuple(lazy_steps(r))
     if k == 'tuple':
-        return tuple(build(x, True) for x in r[1])
+        return tuple(chain_steps(r[1]))
     if k == 'pipe':
-        return Pipe(*[build(x, True) for x in r[1]])
+        return Pipe(*chain_steps(r[1]))
     if k == 'dict':
         return dict(('f%d' % i, build(x)) for i, x in enumerate(r[1]))
     if k == 'list':
@@ -172,6 +178,26 @@ def build(r, in_chain=False):
         sp = Spec(build(r[2]), scope=dict(r[1]))
         return (sp,) if in_chain else sp
     raise ValueError(r)
+
+
+LAZY_ITEMS = ['i1', 'i2']
+
+
+def lazy_steps(r):
+    sub = build(r[1])
+    if r[2] == 'all':
+        return [Val(list(LAZY_ITEMS)), Iter(sub).all()]
+    return [Val(list(LAZY_ITEMS)), Iter(sub) if r[2] == 'iter' else Iter().map(sub), list]
+
+
+def chain_steps(rs):
+    out = []
+    for x in rs:
+        if x[0] == 'lazy':
+            out.extend(lazy_steps(x))          # spliced: Iter and its consumer are steps of THIS chain
+        else:
+            out.append(build(x, True))
+    return out
 
 
 # ---------------------------------------------------------------------------
@@ -220,6 +246,9 @@ def ev(r, target, env, state):
                 e = dict(e)
                 e.update(db)
         return cur, {}
+    if k == 'lazy':
+        # nested in the chain: sees the environment of the chain at the Iter step, binds nothing outside itself
+        return [ev(r[1], item, env, state)[0] for item in LAZY_ITEMS], {}
     if k == 'dict':
         return dict(('f%d' % i, ev(x, target, env, state)[0]) for i, x in enumerate(r[1])), {}
     if k == 'list':
@@ -293,6 +322,8 @@ def check(recipe, ctx):
     acc = leaves(tree, {'binders': 0, 'readers': 0})
     ctx.nontrivial(acc['binders'] >= 1 and acc['readers'] >= 1)
     ctx.label('caller-scope' if recipe['caller'] else 'no-caller-scope')
+    if "'lazy'" in repr(tree):
+        ctx.label('lazy-iter')
     spec = build(tree)
     where = 'spec=%r caller scope=%r' % (spec, recipe['caller'])
     for rep in range(2):
@@ -459,7 +490,7 @@ def check_ref(recipe, ctx):
 
 
 SUBS = [
-    Sub('scope', check, gen=gen, quick=5000, thorough=20000, floors={'caller-scope': 0.3, 'exp-ok': 0.5}),
+    Sub('scope', check, gen=gen, quick=5000, thorough=20000, floors={'caller-scope': 0.3, 'exp-ok': 0.5, 'lazy-iter': 0.05}),
     Sub('matchdict', check_matchdict, gen=gen_matchdict, quick=800, thorough=3000),
     Sub('ref', check_ref, gen=gen_ref, quick=600, thorough=2500),
 ]
